@@ -125,6 +125,14 @@ def _uf(name):
     return f
 
 
+def _m_log(x, base=None):
+    if is_sym(x) or is_sym(base):
+        if base is None:
+            return core.ufunc_app('log', x)
+        raise Unsupported('log with base of a symbolic value')
+    return _math.log(x) if base is None else _math.log(x, base)
+
+
 def _m_floor(x):
     return core.floor(x) if is_sym(x) else _math.floor(x)
 
@@ -168,7 +176,7 @@ class MathFacade(types.ModuleType):
         self.exp = _uf('exp')
         self.cos = _uf('cos')
         self.sin = _uf('sin')
-        self.log = _uf('log')
+        self.log = _m_log
         self.floor = _m_floor
         self.ceil = _m_ceil
         self.log2 = _m_log2
